@@ -104,6 +104,11 @@ func infoFromCell(cell *hrpc.Cell) (hrpc.RegionInfo, error) {
 	if regInfo.TableName == nil {
 		return nil, fmt.Errorf("no table name in %q", cell)
 	}
+	// The name of the region is the key of the regions cache and Compare
+	// panics if it doesn't look like "table,startkey,id".
+	if i := bytes.IndexByte(cell.Row, ','); i < 0 || bytes.LastIndexByte(cell.Row, ',') == i {
+		return nil, fmt.Errorf("invalid region name in %q", cell)
+	}
 	var namespace []byte
 	if !bytes.Equal(regInfo.TableName.Namespace, defaultNamespace) {
 		// if default namespace, pretend there's no namespace
